@@ -99,7 +99,7 @@ def fmt(x):
     if x[0] == "compl":
         return "¬" + fmt(x[1])
     if x[0] == "char":
-        return "char(%s)" % x[1]
+        return "char(%s)" % show(x[1])
     return str(x)
 
 
@@ -204,11 +204,11 @@ class SetInterp:
                     if not src["p"] and src["l"] in self.sets:
                         self.sets[dst] = self.sets[src["l"]]
                     elif src["p"]:
-                        # moving a payload out of an enum: (x as Variant).0
-                        base = src["l"]
-                        pj = src["p"]
-                        if base in self.sets and isinstance(self.sets[base], tuple) and self.sets[base][0] == "enum":
-                            self.sets[dst] = self.sets[base][2]
+                        # moving a payload out of an enum/tuple: (x as Variant).0 -> a symbol named after the source
+                        if "CodePointInversionListBuilder" in body.locals[dst]["ty"] or "CharacterClassBuilder" in body.locals[dst]["ty"]:
+                            self.sets[dst] = ("sym", show(self.senv.place(src)))
+                    elif not src["p"] and ("CodePointInversionListBuilder" in body.locals[dst]["ty"]) and src["l"] <= body.argc:
+                        self.sets[dst] = ("sym", show(self.senv.place(src)))
                 elif rv["k"] == "agg" and rv.get("agg") == "adt" and strip_lt(rv["adt"]).endswith("CharacterClassBuilder"):
                     f = rv["fields"][0]
                     if rv["variant"] == "Char":
@@ -273,6 +273,26 @@ class SetInterp:
                 continue
             if dest is None:
                 continue
+            # CharacterClassBuilder's own operations: interpreted by their contract (each is checked by CLASS-OPS)
+            if r.startswith("character_class::CharacterClassBuilder::"):
+                m = r.split("::")[-1]
+                if m == "from_char":
+                    self.sets[dest] = ("char", self.val(args[0]))
+                    continue
+                if m == "from_str":
+                    v = self.val(args[0])
+                    if v[0] == "const" and v[1] == "str":
+                        self.sets[dest] = lit([(ord(c), ord(c)) for c in v[2]])
+                    else:
+                        self.sets[dest] = ("sym", "chars(%s)" % show(v))
+                    continue
+                if m in ("union", "difference", "complement"):
+                    xs = [self.as_set(self.set_of_operand(a)) for a in args]
+                    self.sets[dest] = union(*xs) if m == "union" else diff(*xs) if m == "difference" else compl(xs[0])
+                    continue
+                if m == "build":
+                    self.sets[dest] = self.as_set(self.set_of_operand(args[0]))
+                    continue
             # local functions returning builders
             lb = self.ctx.f.body(r)
             if lb is not None and self.depth < 4 and ("CodePointInversionListBuilder" in (lb.sig or "") or "CharacterClassBuilder" in (lb.sig or "")):
@@ -297,6 +317,12 @@ class SetInterp:
                     self.sets[dest] = self.sets[rl]
                 continue
         return self
+
+    def as_set(self, x):
+        if x is not None and x[0] == "char":
+            cp = self._cp(x[1])
+            return lit([(cp, cp)]) if cp is not None else ("sym", "{%s}" % show(x[1]))
+        return x
 
     def result(self):
         return self.sets.get(0)
